@@ -462,7 +462,14 @@ void apply(Inst &in, CaseCtx &cx, int op, uint8_t a, uint8_t b, int K, size_t ma
         break;
     }
     case SWAP: {
-        if (nl < 2) { CNTA("noop.swap"); TRACE("%s swap noop", in.tag); return; }
+        if (nl < 2) {
+            // "over one or more lists": with one list the only swap there is exchanges the list with itself, and the
+            // reference sequence stays what it was (unlike self-concat, whose meaning the header leaves open)
+            TRACE("%s L%d.swap L%d (itself, %zu)", in.tag, li, li, m.size());
+            LIB(cstl_dlist_swap(l, l));
+            CNTA(m.empty() ? "class.swap.self_empty" : "class.swap.self_nonempty");
+            break;
+        }
         si = other_list(li, b, nl);
         std::vector<Elem *> &ms = in.model[si];
         TRACE("%s L%d.swap L%d (%zu <-> %zu)", in.tag, li, si, m.size(), ms.size());
